@@ -184,7 +184,7 @@ def count_clauses(unit):
     return n
 
 
-def verify_unit(name, sources, rlimit=None, keep_dir=None):
+def verify_unit(name, sources, rlimit=None, keep_dir=None, extra=None):
     rep = UnitReport(name)
     try:
         tmpl = read_template(name)
@@ -200,7 +200,7 @@ def verify_unit(name, sources, rlimit=None, keep_dir=None):
     rep.text_hash = hashlib.sha256(text.encode()).hexdigest()[:16]
     rep.trusted = scan_trusted(u)
     rep.clauses = count_clauses(u)
-    res = verus.run(text, name, rlimit=rlimit, keep_dir=keep_dir)
+    res = verus.run(text, name, rlimit=rlimit, keep_dir=keep_dir, extra=extra)
     rep.result = res
     if res.crashed:
         rep.error = 'verus crashed or produced no JSON: %s' % (res.raw_stderr[-1500:])
